@@ -25,6 +25,102 @@ func checkC11(c *Check) {
 	c11Pairing(c)
 	c11NoCrash(c)
 	c11Staleness(c)
+	c11Eviction(c)
+
+	// the endpoint's permits: C03.R5 / C03.immut (acquire/release pairing and key agreement in the SMTP session) are
+	// this property's rules for the endpoint scope; they are re-evaluated here.
+	c.Rule("R3", "SMTP endpoint: the permit is released with the key it was taken with (C03.R5 take/release pairing, release-key provenance, clean-up releases; C03.immut sender immutable while open)", 3)
+	sub := newCheck("C03", c.P, c.Tier)
+	checkC03(sub)
+	for _, o := range sub.obs {
+		if o.Rule != "R5" && o.Rule != "immut" {
+			continue
+		}
+		c.Hold("R3", o.Rule+":"+o.Key, o.posRaw, o.OK, o.Msg)
+	}
+	for f := range sub.funcs {
+		c.SawFunc(f)
+	}
+}
+
+// R6: a bucket looked up before an eviction pass is not used afterwards
+func c11Eviction(c *Check) {
+	p := c.P
+	c.Rule("R6", "limiter tables: a value looked up in the table is not used after a pass that may delete entries from the same table (the entry may have been evicted and closed)", 2)
+	pk := p.Pkg(limitersRel)
+	if pk == nil {
+		c.Fail("R6", "package", token.NoPos, "anchor unresolved")
+		return
+	}
+	n := 0
+	p.AllFuncs([]*packagesPkg{pk}, func(fi *FuncInfo) {
+		info := fi.Info()
+		r := &RuleCtx{C: c, FI: fi, F: p.FlowOfFunc(fi), Info: info}
+		// lookups: v, ok := M[k] / v := M[k] with M a map field
+		for _, pt := range r.F.Points() {
+			as, ok := pt.Node().(*ast.AssignStmt)
+			if !ok || len(as.Rhs) != 1 {
+				continue
+			}
+			ix, ok := ast.Unparen(as.Rhs[0]).(*ast.IndexExpr)
+			if !ok {
+				continue
+			}
+			mf := fieldOf(info, ix.X)
+			if mf == nil {
+				continue
+			}
+			if _, isMap := mf.Type().Underlying().(*types.Map); !isMap {
+				continue
+			}
+			v := objOf(info, as.Lhs[0])
+			if v == nil {
+				continue
+			}
+			n++
+			c.SawFunc(fi.Name())
+			deletes := r.F.Find(func(nd ast.Node) bool {
+				hit := false
+				inspectNoLit(nd, func(x ast.Node) bool {
+					if call, ok := x.(*ast.CallExpr); ok {
+						if id, ok := call.Fun.(*ast.Ident); ok && (id.Name == "delete" || id.Name == "clear") && len(call.Args) >= 1 && fieldOf(info, call.Args[0]) == mf {
+							hit = true
+						}
+					}
+					return true
+				})
+				return hit
+			})
+			redef := func(q Pt) bool {
+				return q != pt && nodeAssigns(q.Node(), func(l, _ ast.Expr) bool { return objOf(info, l) == v })
+			}
+			uses := func(q Pt) bool {
+				if q == pt {
+					return false
+				}
+				found := false
+				inspectNoLit(q.Node(), func(x ast.Node) bool {
+					if id, ok := x.(*ast.Ident); ok && info.Uses[id] == v {
+						found = true
+					}
+					return true
+				})
+				return found
+			}
+			msg := ""
+			for _, d := range deletes {
+				_, f1 := r.F.Reach(Query{From: []Pt{pt}, Target: isPt([]Pt{d}), Avoid: redef})
+				path, f2 := r.F.Reach(Query{From: []Pt{d}, Target: uses, Avoid: redef})
+				if f1 && f2 {
+					msg = "the entry read from " + mf.Name() + " is used after entries were deleted from the table: if the eviction removed (and closed) that very entry, the caller gets a limiter that is no longer in the table – the next request for the key creates a fresh one (more than N holders) and the release goes to the wrong one: " + r.F.Describe(path)
+				}
+			}
+			c.Hold("R6", fi.Name()+":"+v.Name(), as.Pos(), msg == "", msg)
+		}
+	})
+	if n == 0 {
+		c.Fail("R6", "limiters:lookups", token.NoPos, "undecided: no table lookups found")
+	}
 }
 
 // ---------------------------------------------------------------------------
